@@ -246,6 +246,11 @@ Definition app_sem (h : string) (vs : list val) : option val :=
   | "BSWAP16", [VBv 16 x] => Some (VBv 16 ((x mod 256) * 256 + x / 256))
   | "BSWAP32", [VBv 32 x] =>
       Some (VBv 32 ((x mod 256) * 16777216 + ((x / 256) mod 256) * 65536 + ((x / 65536) mod 256) * 256 + x / 16777216))
+  | "BSWAP64", [VBv 64 x] =>
+      Some (VBv 64 ((x mod 256) * 72057594037927936 + ((x / 256) mod 256) * 281474976710656
+                    + ((x / 65536) mod 256) * 1099511627776 + ((x / 16777216) mod 256) * 4294967296
+                    + ((x / 4294967296) mod 256) * 16777216 + ((x / 1099511627776) mod 256) * 65536
+                    + ((x / 281474976710656) mod 256) * 256 + x / 72057594037927936))
   | _, _ => None
   end.
 
